@@ -1370,10 +1370,7 @@ impl TestTextSelection for TextSelectionSet {
             return false;
         }
         match operator {
-            TextSelectionOperator::Equals {
-                all: false,
-                negate: false,
-            } => {
+            TextSelectionOperator::Equals { negate: false, .. } => {
                 //ALL of the items in this set must match with ANY item in the otherset
                 for item in self.iter() {
                     if !item.test(operator, reftextsel, resource) {
@@ -1423,10 +1420,7 @@ impl TestTextSelection for TextSelectionSet {
                 all: false,
                 negate: false,
             }
-            | TextSelectionOperator::InSet {
-                all: false,
-                negate: false,
-            } => {
+            | TextSelectionOperator::InSet { negate: false, .. } => {
                 // ALL of the items in this set must match with ANY item in the otherset
                 // This is a weaker form of Equals (could have also been called SameRange)
                 for item in self.iter() {
@@ -1492,10 +1486,7 @@ impl TestTextSelection for TextSelectionSet {
                 .leftmost()
                 .unwrap()
                 .test(operator, reftextsel, resource),
-            TextSelectionOperator::SameRange {
-                all: true,
-                negate: false,
-            } => {
+            TextSelectionOperator::SameRange { negate: false, .. } => {
                 self.leftmost()
                     .unwrap()
                     .test(operator, reftextsel, resource)
@@ -1516,7 +1507,8 @@ impl TestTextSelection for TextSelectionSet {
             | TextSelectionOperator::Succeeds { negate: true, .. }
             | TextSelectionOperator::SameBegin { negate: true, .. }
             | TextSelectionOperator::SameEnd { negate: true, .. }
-            | TextSelectionOperator::InSet { negate: true, .. } => {
+            | TextSelectionOperator::InSet { negate: true, .. }
+            | TextSelectionOperator::SameRange { negate: true, .. } => {
                 !self.test(&operator.toggle_negate(), reftextsel, resource)
             }
             _ => unreachable!("unknown operator+modifier combination"),
@@ -1535,10 +1527,7 @@ impl TestTextSelection for TextSelectionSet {
             return false;
         }
         match operator {
-            TextSelectionOperator::Equals {
-                all: false,
-                negate: false,
-            } => {
+            TextSelectionOperator::Equals { negate: false, .. } => {
                 if self.len() != refset.len() {
                     //each item must have a counterpart so the sets must be equal length
                     return false;
@@ -1592,10 +1581,7 @@ impl TestTextSelection for TextSelectionSet {
                 all: false,
                 negate: false,
             }
-            | TextSelectionOperator::InSet {
-                all: false,
-                negate: false,
-            } => {
+            | TextSelectionOperator::InSet { negate: false, .. } => {
                 // ALL of the items in this set must match with ANY item in the otherset
                 // This is a weaker form of Equals (could have also been called SameRange)
                 for item in self.iter() {
@@ -1661,10 +1647,7 @@ impl TestTextSelection for TextSelectionSet {
                 .leftmost()
                 .unwrap()
                 .test_set(operator, refset, resource),
-            TextSelectionOperator::SameRange {
-                all: true,
-                negate: false,
-            } => {
+            TextSelectionOperator::SameRange { negate: false, .. } => {
                 self.leftmost()
                     .unwrap()
                     .test_set(operator, refset, resource)
@@ -1685,7 +1668,8 @@ impl TestTextSelection for TextSelectionSet {
             | TextSelectionOperator::Succeeds { negate: true, .. }
             | TextSelectionOperator::SameBegin { negate: true, .. }
             | TextSelectionOperator::SameEnd { negate: true, .. }
-            | TextSelectionOperator::InSet { negate: true, .. } => {
+            | TextSelectionOperator::InSet { negate: true, .. }
+            | TextSelectionOperator::SameRange { negate: true, .. } => {
                 !self.test_set(&operator.toggle_negate(), refset, resource)
             }
             _ => unreachable!("unknown operator+modifier combination"),
@@ -1812,7 +1796,8 @@ impl TestTextSelection for TextSelection {
             | TextSelectionOperator::Succeeds { negate: true, .. }
             | TextSelectionOperator::SameBegin { negate: true, .. }
             | TextSelectionOperator::SameEnd { negate: true, .. }
-            | TextSelectionOperator::InSet { negate: true, .. } => {
+            | TextSelectionOperator::InSet { negate: true, .. }
+            | TextSelectionOperator::SameRange { negate: true, .. } => {
                 !self.test(&operator.toggle_negate(), reftextsel, resource)
             }
             _ => unreachable!("unknown operator+modifier combination"),
@@ -1829,10 +1814,7 @@ impl TestTextSelection for TextSelection {
         resource: &TextResource,
     ) -> bool {
         match operator {
-            TextSelectionOperator::Equals {
-                all: false,
-                negate: false,
-            }
+            TextSelectionOperator::Equals { negate: false, .. }
             | TextSelectionOperator::Overlaps {
                 all: false,
                 negate: false,
@@ -1874,10 +1856,7 @@ impl TestTextSelection for TextSelection {
                 all: false,
                 negate: false,
             }
-            | TextSelectionOperator::InSet {
-                all: false,
-                negate: false,
-            } => {
+            | TextSelectionOperator::InSet { negate: false, .. } => {
                 for reftextsel in refset.iter() {
                     if self.test(operator, reftextsel, resource) {
                         return true;
@@ -2002,10 +1981,7 @@ impl TestTextSelection for TextSelection {
                 }
                 self.end == refset.rightmost().unwrap().end()
             }
-            TextSelectionOperator::SameRange {
-                all: true,
-                negate: false,
-            } => {
+            TextSelectionOperator::SameRange { negate: false, .. } => {
                 if refset.is_empty() {
                     return false;
                 }
@@ -2024,7 +2000,8 @@ impl TestTextSelection for TextSelection {
             | TextSelectionOperator::Succeeds { negate: true, .. }
             | TextSelectionOperator::SameBegin { negate: true, .. }
             | TextSelectionOperator::SameEnd { negate: true, .. }
-            | TextSelectionOperator::InSet { negate: true, .. } => {
+            | TextSelectionOperator::InSet { negate: true, .. }
+            | TextSelectionOperator::SameRange { negate: true, .. } => {
                 !self.test_set(&operator.toggle_negate(), refset, resource)
             }
             _ => unreachable!("unknown operator+modifier combination"),
